@@ -3,7 +3,8 @@
 extra checks named in seeded/<id>/meta.json "also_checks"); writes
 seeded/RESULTS.json and prints a markdown table. /repo must be clean."""
 import json, os, subprocess, sys
-root = "/verif/seeded"
+VERIF = os.path.dirname(os.path.dirname(os.path.abspath(__file__)))
+root = os.path.join(VERIF, "seeded")
 out = {}
 only = sys.argv[1:]
 if only and os.path.exists(os.path.join(root, "RESULTS.json")):
@@ -14,7 +15,7 @@ for m in sorted(os.listdir(root)):
         continue
     meta = json.load(open(os.path.join(d, "meta.json")))
     checks = [meta["property"]] + meta.get("also_checks", [])
-    r = subprocess.run(["/verif/tools/try_mutant.py", d, "--skip-confirm", "--checks", ",".join(checks)], capture_output=True, text=True)
+    r = subprocess.run([os.path.join(VERIF, "tools/try_mutant.py"), d, "--skip-confirm", "--checks", ",".join(checks)], capture_output=True, text=True)
     try:
         res = json.loads(r.stdout.strip().split("\n")[-1])
     except Exception:
